@@ -240,6 +240,99 @@ func c02Child(ctx *runCtx, spec string) {
 			ctx.rep.Count("sequential_stops_with_full_handover_in_between", 1)
 			_ = n
 		}
+	case cs.Instant == "lagging-target":
+		// The first member stops. One survivor (not the coordinator) is held back before it applies the pushed routing
+		// table, so that it still has the old one while the other survivors already balance: fragments sent to it are
+		// rejected. Then it catches up, the hand-over is run to completion and the second member stops.
+		atomic.StoreInt32(&w.faultBegan, 1)
+		var lag *cluster.Member
+		for _, m := range survivors {
+			if m != c.Coordinator() {
+				lag = m
+			}
+		}
+		if lag == nil {
+			ctx.rep.Inconclusive(spec + ": no survivor besides the coordinator")
+			return
+		}
+		release := make(chan struct{})
+		var held int32
+		verifhook.Set(lag.Name, "rt.before-update", func(member, name string) {
+			atomic.AddInt32(&held, 1)
+			<-release
+		})
+		first := c.Members[cs.Stop[0]]
+		if cs.Mode == "graceful" {
+			c.StopGraceful(first)
+		} else {
+			c.StopAbrupt(first)
+		}
+		// wait until every other survivor has a table without the stopped member
+		updated := false
+		for poll := 0; poll < 400 && !updated; poll++ {
+			updated = atomic.LoadInt32(&held) > 0
+			for _, m := range survivors {
+				if m == lag {
+					continue
+				}
+				v := m.View(cs.P)
+				for _, owners := range v.Primary {
+					for _, o := range owners {
+						if o.Name == first.Name {
+							updated = false
+						}
+					}
+				}
+			}
+			if !updated {
+				time.Sleep(50 * time.Millisecond)
+			}
+		}
+		if !updated {
+			close(release)
+			verifhook.Set(lag.Name, "rt.before-update", nil)
+			ctx.rep.Inconclusive(spec + ": the survivors did not get the new routing table while one member was held back")
+			return
+		}
+		for round := 0; round < 10; round++ {
+			for _, l := range c.Live() {
+				if l != lag {
+					l.V.Balancer.BalanceEagerly()
+				}
+			}
+		}
+		ctx.rep.Count("balancer_rounds_while_a_target_had_the_old_routing_table", 10)
+		verifhook.Set(lag.Name, "rt.before-update", nil)
+		close(release)
+		handOver := func() bool {
+			if err := c.WaitStable(60 * time.Second); err != nil {
+				ctx.rep.Inconclusive(spec + ": " + err.Error())
+				return false
+			}
+			for round := 0; round < 30; round++ {
+				for _, l := range c.Live() {
+					l.V.Balancer.BalanceEagerly()
+				}
+				c.PushRouting()
+			}
+			if err := c.WaitStable(30 * time.Second); err != nil {
+				ctx.rep.Inconclusive(spec + ": " + err.Error())
+				return false
+			}
+			return true
+		}
+		if !handOver() {
+			return
+		}
+		second := c.Members[cs.Stop[1]]
+		if cs.Mode == "graceful" {
+			c.StopGraceful(second)
+		} else {
+			c.StopAbrupt(second)
+		}
+		if !handOver() {
+			return
+		}
 	case cs.Instant == "between":
 		// a workload keeps running on the survivors while the members stop
 		stopWl := make(chan struct{})
@@ -505,10 +598,13 @@ func c02Cases(tier string, seed int64) []c02Case {
 		add(c02Case{N: 4, R: 3, P: 7, Stop: []int{0, 2}, Mode: "abrupt", Instant: "between", RR: true})
 		add(c02Case{N: 4, R: 3, P: 7, Stop: []int{1, 3}, Mode: "graceful", Instant: "idle", Balance: true})
 		// no spare member: the promoted members keep what they have; two failures one after the other
-		add(c02Case{N: 3, R: 3, P: 7, Stop: []int{2, 0}, Mode: "graceful", Instant: "sequential"})
-		add(c02Case{N: 3, R: 3, P: 23, Stop: []int{1, 2}, Mode: "abrupt", Instant: "sequential", Balance: true})
+		for k, st := range [][]int{{2, 0}, {1, 2}, {0, 1}, {2, 1}, {1, 0}, {0, 2}} {
+			add(c02Case{N: 3, R: 3, P: []uint64{7, 23, 31}[k%3], Stop: st, Mode: []string{"graceful", "abrupt"}[k%2], Instant: "sequential", Balance: k%2 == 1})
+		}
 		add(c02Case{N: 3, R: 3, P: 7, Stop: []int{2}, Mode: "graceful", Instant: "idle", Balance: true})
 		add(c02Case{N: 4, R: 3, P: 23, Stop: []int{3, 0}, Mode: "abrupt", Instant: "sequential", RR: true})
+		add(c02Case{N: 4, R: 3, P: 23, Stop: []int{3, 1}, Mode: "abrupt", Instant: "lagging-target"})
+		add(c02Case{N: 4, R: 3, P: 31, Stop: []int{1, 3}, Mode: "graceful", Instant: "lagging-target"})
 		return cs
 	}
 	for _, n := range []int{3, 4, 5} {
@@ -531,6 +627,9 @@ func c02Cases(tier string, seed int64) []c02Case {
 					for ii, inst := range []string{"idle", "between"} {
 						add(c02Case{N: n, R: r, P: []uint64{7, 23}[(si+mi)%2], Stop: st, Mode: mode, Instant: inst, RR: (si+ii)%2 == 0, Balance: (si+mi+ii)%2 == 0})
 					}
+				}
+				if r == 3 && len(st) == 2 && n >= 4 {
+					add(c02Case{N: n, R: r, P: []uint64{23, 31}[si%2], Stop: st, Mode: []string{"abrupt", "graceful"}[si%2], Instant: "lagging-target", RR: false, Balance: si%2 == 0})
 				}
 				if r == 3 && len(st) == 2 {
 					add(c02Case{N: n, R: r, P: []uint64{7, 23}[si%2], Stop: st, Mode: []string{"graceful", "abrupt"}[si%2], Instant: "sequential", RR: si%3 == 0, Balance: si%2 == 0})
